@@ -388,12 +388,91 @@ def check_histories(pane, res, depth):
     res['outcomes']['histories'] += 1
 
 
+def check_frozen_histories(pane, res, depth):
+    """A frozen instance that holds a NON-frozen, hashable dataclass, in a class whose validation hook rejects some values:
+    all histories of hashing, editing the inner instance, a construction the hook rejects (directly and through from_data),
+    assignment / deletion attempts and copies.  After every step: assignment and deletion still raise, and the instance is
+    equal to - and hashes like - an instance built afresh from its current field values."""
+    import dataclasses
+    from pane.errors import ConvertError
+
+    def post(self):
+        if self.n == 13:
+            raise ValueError('unlucky')
+    Inner = grammar.pin(type('FzInner', (pane.PaneBase,), {'__annotations__': {'x': int}, '__module__': 'mc.generated'}, frozen=False, unsafe_hash=True))
+    Outer = grammar.pin(type('FzOuter', (pane.PaneBase,), {'__annotations__': {'inner': Inner, 'n': int}, '__post_init__': post, '__module__': 'mc.generated'}))
+    Child = grammar.pin(type('FzChild', (Outer,), {'__annotations__': {'m': int}, 'm': 0, '__module__': 'mc.generated'}))    # inherits frozen and the hook
+    OPS = ['hash', 'edit_inner', 'rejected_construct', 'rejected_from_data', 'setattr', 'delattr', 'copy']
+    for cname, C in (('Outer', Outer), ('Child(Outer)', Child)):
+        for hist in itertools.chain.from_iterable(itertools.product(OPS, repeat=d) for d in range(1, depth + 1)):
+            o = C(Inner(1), 2)
+            model = {'x': 1, 'n': 2}
+            problem = None
+            k = 20
+            for op in hist:
+                k += 1
+                try:
+                    if op == 'hash':
+                        hash(o)
+                    elif op == 'edit_inner':
+                        o.inner.x = k
+                        model['x'] = k
+                    elif op == 'rejected_construct':
+                        try:
+                            C(Inner(0), 13)
+                            problem = "the hook did not reject n=13"
+                        except ValueError:
+                            pass
+                    elif op == 'rejected_from_data':
+                        try:
+                            pane.from_data({'inner': {'x': 0}, 'n': 13}, C)
+                            problem = "the hook did not reject n=13 (from_data)"
+                        except ConvertError:
+                            pass
+                    elif op == 'setattr':
+                        try:
+                            o.n = 5
+                            problem = f"assignment to a field of a frozen instance succeeded (now {o!r})"
+                        except dataclasses.FrozenInstanceError:
+                            pass
+                    elif op == 'delattr':
+                        try:
+                            del o.n
+                            problem = "deleting a field of a frozen instance succeeded"
+                        except (dataclasses.FrozenInstanceError, AttributeError):
+                            pass
+                    elif op == 'copy':
+                        o = copy.copy(o)
+                except Exception as e:  # noqa
+                    problem = f"{op} raised {type(e).__name__}: {e}"
+                res['transitions'] += 1
+                if problem is None:
+                    fresh = C.make_unchecked(inner=Inner.make_unchecked(x=model['x']), n=model['n'])
+                    if (o.inner.x, o.n) != (model['x'], model['n']):
+                        problem = f"after {op}: fields ({o.inner.x}, {o.n}), expected ({model['x']}, {model['n']})"
+                    elif not (o == fresh):
+                        problem = f"after {op}: {o!r} != an instance built afresh from the same values"
+                    elif hash(o) != hash(fresh):
+                        problem = f"after {op}: {o!r} == a fresh {fresh!r} but their hashes differ"
+                if problem:
+                    break
+            res['states'] += 1
+            res['evals'] += 1
+            res['validated'] += 1
+            res['nontrivial'].add(f"frozen_hist|{cname}|{'>'.join(hist)}")
+            if problem:
+                core.add_violation(res, {'kind': 'frozen_history', 'op': op, 'cls': cname},
+                                   f"{cname} (frozen, holds a non-frozen hashable instance, hook rejects n=13), history {list(hist)}: {problem}",
+                                   {'hist': True, 'frozen': True, 'cls': cname, 'ops': list(hist)}, len(hist))
+
+
 def run_shard(shard, tier):
     pane = core.import_pane()
     warnings.simplefilter('ignore')
     res = core.new_result()
     if shard.get('hist'):
         check_histories(pane, res, 3 if tier == 'quick' else 4)
+        check_frozen_histories(pane, res, 3 if tier == 'quick' else 4)
         check_generic(pane, res)
         check_derived(pane, res)
         res['samples'].append({'start': 'from_data({})', 'history': ['copy', 'setattr_n', 'replace_bad']})
@@ -419,6 +498,7 @@ def replay(cell):
     res = core.new_result()
     if cell.get('hist') or cell.get('generic') or cell.get('derived'):
         check_histories(pane, res, 4)
+        check_frozen_histories(pane, res, 4)
         check_generic(pane, res)
         check_derived(pane, res)
         out = [v for lst in res['violations'].values() for v in lst]
